@@ -83,6 +83,11 @@ def check_fixed(case, ctx):
     start = {k: v for k, v in case["start"].items() if k not in fixed}
     if loc in start:
         start[loc] = float(min(start[loc], 0.5 * data.min())) if data.min() > 0 else float(data.min() - 1.0)
+    for k_ in list(start):
+        # a non-zero start of magnitude < 1e-6 (6e-08) freezes that coordinate of scipy's simplex (its first step is 5 %
+        # of the start value): not a start value anyone passes; the same convention as in C14
+        if k_ in ("mu", "loc", "gamma") and 0 < abs(start[k_]) < 1e-6:
+            start[k_] = 0.0
 
     # 1. construction
     with_start = case["with_start"] or family in ("LogNormalNormFit",)  # LNNF's defaults (mu_norm=0) are not a distribution
